@@ -36,10 +36,10 @@ def build():
     w = World('native')
     fam = Family('contracts.native', w)
     for prop, (modname, scope) in SUITES.items():
-        try:
-            __import__(modname)
-        except Exception:       # module not delivered yet
-            continue
+        import os
+        if not os.path.exists(os.path.join(os.path.dirname(os.path.dirname(os.path.abspath(__file__))),
+                                           *modname.split('.')) + '.py'):
+            continue            # suite module not delivered (a broken module must fail loudly instead)
         fam.bounded.append(Bounded('native_suite_%s' % prop, [prop], _suite(modname, prop), scope=scope,
                                    stands_in_for='clauses of %s that no contract within the engine\'s reach decides '
                                                  '(database/codec/Python-text semantics); same clauses, run natively' % prop))
